@@ -162,6 +162,8 @@ pub enum Op {
     BurnLp { u: usize, amount: Uint128 },
     Run { script: Vec<Act> },
     RouterLoan { u: usize, amount: Uint128, pre: Uint128, script: Vec<Act> },
+    /// vault-router FlashLoan with `attached` coins of the vault asset attached to the message (native vaults)
+    RouterLoanF { u: usize, amount: Uint128, pre: Uint128, script: Vec<Act>, attached: Uint128 },
     RouterMany { u: usize, n: u32 },
     CallbackExt { u: usize, old: Uint128, amount: Uint128 },
     NextLoanExt { u: usize },
@@ -200,6 +202,7 @@ pub fn op_coq(o: &Op) -> String {
         Op::BurnLp { u, amount } => format!("OBurnLP {}%nat {}", u, amount),
         Op::Run { script } => format!("ORun {}", script_coq(script)),
         Op::RouterLoan { u, amount, pre, script } => format!("ORouterLoan {}%nat {} {} {}", u, amount, pre, script_coq(script)),
+        Op::RouterLoanF { u, amount, pre, script, attached } => format!("ORouterLoanF {}%nat {} {} {} {}", u, amount, pre, script_coq(script), attached),
         Op::RouterMany { u, n } => format!("ORouterMany {}%nat {}", u, n),
         Op::CallbackExt { u, old, amount } => format!("OCallbackExt {}%nat {} {}", u, old, amount),
         Op::NextLoanExt { u } => format!("ONextLoanExt {}%nat", u),
@@ -222,7 +225,7 @@ pub fn op_has_nested(o: &Op) -> bool {
     let mut v = vec![];
     match o {
         Op::Run { script } => { script_loans(script, 0, false, &mut v); v.iter().any(|l| l.1 >= 1) }
-        Op::RouterLoan { script, .. } => { script_loans(script, 1, false, &mut v); !v.is_empty() }
+        Op::RouterLoan { script, .. } | Op::RouterLoanF { script, .. } => { script_loans(script, 1, false, &mut v); !v.is_empty() }
         _ => false,
     }
 }
@@ -475,6 +478,14 @@ impl VaultWorld {
                 msgs.push(self.adv_run_msg(amount.u128(), script));
                 self.app.execute_contract(self.addr(*u), self.router.clone(), &rmsg::ExecuteMsg::FlashLoan {
                     assets: vec![Asset { info: self.asset.clone(), amount: *amount }], msgs }, &[])
+            }
+            Op::RouterLoanF { u, amount, pre, script, attached } => {
+                let mut msgs: Vec<CosmosMsg> = vec![];
+                if !pre.is_zero() { msgs.push(asset_send(&self.asset, self.adv.as_str(), *pre)?); }
+                msgs.push(self.adv_run_msg(amount.u128(), script));
+                let funds: Vec<Coin> = match &self.asset { AssetInfo::NativeToken { denom } if !attached.is_zero() => vec![coin(attached.u128(), denom)], _ => vec![] };
+                self.app.execute_contract(self.addr(*u), self.router.clone(), &rmsg::ExecuteMsg::FlashLoan {
+                    assets: vec![Asset { info: self.asset.clone(), amount: *amount }], msgs }, &funds)
             }
             Op::RouterMany { u, n } => {
                 let assets: Vec<Asset> = (0..*n).map(|_| Asset { info: self.asset.clone(), amount: Uint128::new(1) }).collect();
